@@ -49,6 +49,21 @@ type simNet struct {
 	// the first Sync Interest; the requester must retry after its back-off
 	cold   bool
 	nacked map[*simEngine]map[int]bool
+	// delivery latency of Sync Interests varies within [1 ms, jitter]; heartbeat period + jitter < dead interval
+	jitter time.Duration
+	// times at which each router expressed Sync Interests while the harness is observing heartbeats
+	watchHB bool
+	hbTimes map[int][]time.Time
+	// armed outage: when router from next expresses an advertisement fetch towards to, the link is cut at that moment
+	// (the Data of that fetch is lost) and comes back at the given later time
+	armed *outage
+}
+
+type outage struct {
+	from, to int
+	length   time.Duration
+	fired    bool
+	at       time.Time
 }
 
 const protoEventBudget = 120000
@@ -107,6 +122,16 @@ func (n *simNet) dataDelay() time.Duration {
 		return time.Duration(300+n.r.Intn(3600)) * time.Millisecond
 	}
 	return time.Duration(1+n.r.Intn(15)) * time.Millisecond
+}
+
+func (n *simNet) syncDelay() time.Duration {
+	n.mu.Lock()
+	defer n.mu.Unlock()
+	j := int64(n.jitter / time.Millisecond)
+	if j < 2 {
+		j = 15
+	}
+	return time.Duration(1+n.r.Int63n(j)) * time.Millisecond
 }
 
 func (n *simNet) delay() time.Duration {
@@ -171,7 +196,11 @@ func (n *simNet) deliver(src *simEngine, to int, interest *ndn.EncodedInterest, 
 		defer n.mu.Unlock()
 		return n.eng[from] == src
 	}
-	time.Sleep(n.delay())
+	if cb == nil {
+		time.Sleep(n.syncDelay()) // Sync Interests: the jittery ones
+	} else {
+		time.Sleep(n.delay())
+	}
 	if !n.linked(from, to) || !same() {
 		return
 	}
@@ -242,6 +271,11 @@ func (e *simEngine) Express(interest *ndn.EncodedInterest, cb ndn.ExpressCallbac
 	case e.syncPfx.IsPrefix(name):
 		// advertisement Sync Interest (active and passive): multicast to every adjacent router
 		n.count("sync-interest")
+		n.mu.Lock()
+		if n.watchHB {
+			n.hbTimes[e.idx] = append(n.hbTimes[e.idx], time.Now())
+		}
+		n.mu.Unlock()
 		for j := range n.eng {
 			if j != e.idx && n.linked(e.idx, j) {
 				go n.deliver(e, j, interest, nil)
@@ -269,6 +303,19 @@ func (e *simEngine) Express(interest *ndn.EncodedInterest, cb ndn.ExpressCallbac
 			}
 		}
 		n.mu.Lock()
+		if o := n.armed; o != nil && !o.fired && o.from == e.idx && o.to == to && n.link[lkey(o.from, o.to)] {
+			// the outage begins exactly now: this fetch and everything after it on the link is lost
+			o.fired = true
+			o.at = time.Now()
+			delete(n.link, lkey(o.from, o.to))
+			n.stats["outage"]++
+			a, b, l := o.from, o.to, o.length
+			time.AfterFunc(l, func() {
+				n.mu.Lock()
+				n.link[lkey(a, b)] = true
+				n.mu.Unlock()
+			})
+		}
 		nackIt := false
 		if n.cold && to >= 0 {
 			if n.nacked[e] == nil {
@@ -310,6 +357,7 @@ type protoWorld struct {
 	done []chan struct{}
 	cfgS uint64
 	cfgD uint64
+	started []time.Time // when Start() of the current incarnation was called (phase of its tickers)
 }
 
 func (p *protoWorld) startRouter(i int) {
@@ -332,6 +380,7 @@ func (p *protoWorld) startRouter(i int) {
 	p.rt[i] = r
 	ch := make(chan struct{})
 	p.done[i] = ch
+	p.started[i] = time.Now()
 	go func() {
 		r.Start()
 		close(ch)
@@ -390,6 +439,130 @@ func (p *protoWorld) check(waited time.Duration) {
 	fmt.Fprintf(p.w, "chkphys %d\n", int(waited.Seconds()))
 }
 
+// A long quiet run: nothing changes physically and every heartbeat is delivered (latency varying within the jitter
+// bound) for more than five dead intervals.  Nothing may be withdrawn or changed: every router's sequence number and
+// neighbour table must be what they were.  Also observes the heartbeat period (largest gap between Sync Interests).
+func (p *protoWorld) quietRun() {
+	if p.net.overrun {
+		return
+	}
+	type snap struct {
+		seq uint64
+		nb  string
+	}
+	before := map[int]snap{}
+	nbOf := func(i int) string {
+		hs := []uint64{}
+		for _, nm := range p.rt[i].Vf18Neighbors().Vf18Names() {
+			hs = append(hs, nm.Hash())
+		}
+		sort.Slice(hs, func(a, b int) bool { return hs[a] < hs[b] })
+		ss := make([]string, len(hs))
+		for k, h := range hs {
+			ss[k] = p.id(h)
+		}
+		return dashed(ss, ",")
+	}
+	synctest.Wait()
+	for i := 0; i < p.n; i++ {
+		if p.rt[i] != nil {
+			before[i] = snap{p.rt[i].Vf18AdvertSeq(), nbOf(i)}
+		}
+	}
+	p.net.mu.Lock()
+	p.net.watchHB = true
+	p.net.hbTimes = map[int][]time.Time{}
+	p.net.mu.Unlock()
+	length := time.Duration(5*p.cfgD+2*p.cfgS) * time.Millisecond
+	time.Sleep(length)
+	synctest.Wait()
+	p.net.mu.Lock()
+	p.net.watchHB = false
+	hb := p.net.hbTimes
+	p.net.mu.Unlock()
+	for i := 0; i < p.n; i++ {
+		if p.rt[i] == nil {
+			continue
+		}
+		b := before[i]
+		fmt.Fprintf(p.w, "quiet n%d %d %d %s %s %d\n", i, b.seq, p.rt[i].Vf18AdvertSeq(), b.nb, nbOf(i), int(length.Seconds()))
+		// heartbeat period: the largest gap between consecutive Sync Interests of this router
+		ts := hb[i]
+		var maxGap time.Duration
+		for k := 1; k < len(ts); k++ {
+			if g := ts[k].Sub(ts[k-1]); g > maxGap {
+				maxGap = g
+			}
+		}
+		if len(ts) >= 2 {
+			fmt.Fprintf(p.w, "hb n%d %d %d %d %d\n", i, maxGap.Milliseconds(), p.cfgS, p.cfgD, p.net.jitter.Milliseconds())
+		} else {
+			fmt.Fprintf(p.w, "hb n%d %d %d %d %d\n", i, length.Milliseconds(), p.cfgS, p.cfgD, p.net.jitter.Milliseconds())
+		}
+	}
+}
+
+// An outage of exactly the awkward length and phase: router i has just heard a NEW sequence number of its neighbour j and
+// expresses the fetch — at that moment the link goes away (the fetch is lost, retries time out).  The link stays away for
+// longer than the dead interval, and comes back BEFORE i's next dead sweep; j's sequence number has not changed, so its
+// Sync Interests are "nothing changed" for i: only the retry chain of the lost fetch can bring j's advertisement.
+func (p *protoWorld) awkwardOutage(r *rand.Rand, edges [][2]int) {
+	D := time.Duration(p.cfgD) * time.Millisecond
+	if D < 20*time.Second || len(edges) == 0 {
+		return // needs several fetch-retry periods (4.1 s) between the dead-interval expiry and the sweep
+	}
+	e := edges[r.Intn(len(edges))]
+	i, j := e[0], e[1]
+	if r.Intn(2) == 0 {
+		i, j = j, i
+	}
+	if p.rt[i] == nil || p.rt[j] == nil || !p.net.linked(i, j) {
+		return
+	}
+	// phase of i's sweep ticker: sweeps at started[i] + k*D.  Start the outage at offset u in (2 s, D/2): the sweep inside
+	// the outage sees a silence < D, the next one comes D - u after the dead-interval expiry.
+	u := 2*time.Second + time.Duration(r.Int63n(int64(D/2-2*time.Second)))
+	since := time.Since(p.started[i]) % D
+	wait := u - since
+	if wait < 0 {
+		wait += D
+	}
+	time.Sleep(wait)
+	if p.rt[i] == nil || p.rt[j] == nil || !p.net.linked(i, j) {
+		return
+	}
+	// the link comes back after the dead interval has expired and at least one retry of the lost fetch was due
+	back := D + 5*time.Second + time.Duration(r.Int63n(int64(D-u-7*time.Second)))
+	p.net.mu.Lock()
+	p.net.armed = &outage{from: i, to: j, length: back}
+	p.net.mu.Unlock()
+	// j's table changes now (it loses or gains another neighbour): new sequence number, announced to i
+	changed := false
+	for x := 0; x < p.n && !changed; x++ {
+		if x == i || x == j || p.rt[x] == nil {
+			continue
+		}
+		p.net.mu.Lock()
+		if p.net.link[lkey(j, x)] {
+			p.net.mu.Unlock()
+			if p.rt[j].Vf18ExpireNeighbor(p.names[x]) {
+				p.rt[j].Vf18CheckDead() // j declares x dead at once (x re-appears with its next heartbeat)
+				changed = true
+			}
+		} else {
+			p.net.link[lkey(j, x)] = true
+			p.net.mu.Unlock()
+			changed = true
+		}
+	}
+	time.Sleep(back + 2*time.Second)
+	p.net.mu.Lock()
+	if p.net.armed != nil && !p.net.armed.fired {
+		p.net.armed = nil // j's change did not make i fetch: nothing happened
+	}
+	p.net.mu.Unlock()
+}
+
 func runProtoCase(t *testing.T, out *bufio.Writer, r *rand.Rand, k int, n int, edges [][2]int, phases int) (string, map[string]int) {
 	fail := ""
 	var stats map[string]int
@@ -418,8 +591,19 @@ func runProtoCase(t *testing.T, out *bufio.Writer, r *rand.Rand, k int, n int, e
 		}
 		p.net = &simNet{r: rand.New(rand.NewSource(r.Int63())), eng: make([]*simEngine, n), link: map[[2]int]bool{},
 			names: p.names, stats: map[string]int{}, cold: k%5 < 2, nacked: map[*simEngine]map[int]bool{}}
+		if k%2 == 0 { // wide latency variation of Sync Interests, still below (dead - sync)
+			j := (p.cfgD - p.cfgS) / 2
+			if j > 500 {
+				j = 500
+			}
+			p.net.jitter = time.Duration(j) * time.Millisecond
+		} else {
+			p.net.jitter = 15 * time.Millisecond
+		}
+		p.net.hbTimes = map[int][]time.Time{}
 		p.rt = make([]*dvp.Router, n)
 		p.done = make([]chan struct{}, n)
+		p.started = make([]time.Time, n)
 		p.nbr = make([]map[int]bool, n)
 		p.seq = make([]uint64, n)
 		fmt.Fprintf(out, "case %d proto n=%d edges=%d sync=%d dead=%d\n", k, n, len(edges), p.cfgS, p.cfgD)
@@ -438,10 +622,13 @@ func runProtoCase(t *testing.T, out *bufio.Writer, r *rand.Rand, k int, n int, e
 		settle := time.Duration(2*p.cfgD+3*p.cfgS)*time.Millisecond + 320*time.Second
 		time.Sleep(settle)
 		p.check(settle)
+		p.quietRun()
 		for ph := 0; ph < phases; ph++ {
 			nf := 1 + r.Intn(3)
 			for q := 0; q < nf; q++ {
-				switch r.Intn(7) {
+				switch r.Intn(8) {
+				case 7:
+					p.awkwardOutage(r, edges)
 				case 6: // a freshly started router makes many table changes within a few seconds and is restarted at
 					// once (fresh NewRouter, same name) with one link fewer: its neighbours still hold its state and
 					// must notice the new incarnation by its sequence number
@@ -524,6 +711,9 @@ func runProtoCase(t *testing.T, out *bufio.Writer, r *rand.Rand, k int, n int, e
 			}
 			time.Sleep(settle)
 			p.check(settle)
+			if ph == phases-1 || r.Intn(2) == 0 {
+				p.quietRun()
+			}
 		}
 		fmt.Fprintf(out, "end\n")
 		for i := 0; i < n; i++ {
